@@ -1,6 +1,6 @@
 """LAS document generator with provenance tags + canonical dumps of a real LASFile (shared by C05, C19).
 
-A document is a list of sections; every generated line carries a TAG "<sec>x<j>" naming its section of origin:
+A document is a list of sections; every generated line carries a TAG "<sec>q<j>" naming its section of origin:
 item lines   `M<tag>.UNIT  v<tag> : from-<L>-<tag>`   (mnemonic, value and description all carry the tag)
 ~O lines     `other-<tag>`
 data cells   row r, column c -> r*100 + c + 0.25 (so a cell encodes its row and column)
@@ -237,7 +237,7 @@ def line_number(secs, sec_index, body_index):
 
 def route_key(sec):
     k = sec["kind"]
-    return {"V": "Version", "W": "Well", "C": "Curves", "P": "Parameter", "O": "Other", "A": "~A"}.get(k, sec["title"][1:])
+    return {"V": "Version", "W": "Well", "C": "Curves", "P": "Parameter", "O": "Other", "A": "~A"}.get(k, sec["title"].strip()[1:])
 
 
 def expected_tags(secs):
@@ -333,23 +333,7 @@ def canon_header(las, defaults=None, text=None):
             secs.append([k, v])
         else:
             secs.append([k, [[i.original_mnemonic, i.unit, canon_val(i.value), i.descr] for i in list.__iter__(v)]])
-    out = {"sections": secs}
-    # steering values re-derived with the real SectionItems lookups from the sections that steer
-    steer = [None, None, None, None]
-    ver, well = las.sections.get("Version"), las.sections.get("Well")
-    if defaults is not None:
-        if ver is defaults.get("Version"):
-            ver = None
-        if well is defaults.get("Well"):
-            well = None
-    if not isinstance(ver, str) and ver is not None:
-        for j, key in ((0, "VERS"), (1, "WRAP"), (3, "DLM")):
-            if key in ver:
-                steer[j] = canon_val(ver[key].value)
-    if not isinstance(well, str) and well is not None:
-        if "NULL" in well:
-            steer[2] = canon_val(well["NULL"].value)
-    out["steer"] = steer
+    out = {"sections": secs, "steer": None}
     if text is not None:
         scan = real_sections_scan(text)
         data = [[a, b, t] for a, b, t, k in scan if k == "data"]
@@ -360,10 +344,24 @@ def canon_header(las, defaults=None, text=None):
 def read_real_header(text, ignore=False, case="upper"):
     """lasio.read(text, ignore_data=True, …) -> {"ok": canon} | {"err": [...]}"""
     import lasio
+    import sys
     las = lasio.LASFile()
     defaults = dict(las.sections)
+    code = lasio.LASFile.read.__code__
+    seen = {}
+
+    def prof(frame, event, arg):
+        # the steering variables are locals of LASFile.read: observed (not modified) when the frame returns
+        if event == "return" and frame.f_code is code:
+            loc = frame.f_locals
+            seen["steer"] = [canon_val(loc.get(k)) if loc.get(k) is not None else None for k in
+                             ("provisional_version", "provisional_wrapped", "provisional_null", "provisional_delimiter")]
     try:
-        las.read(file_ref(text), ignore_data=True, ignore_header_errors=ignore, mnemonic_case=case)
+        sys.setprofile(prof)
+        try:
+            las.read(file_ref(text), ignore_data=True, ignore_header_errors=ignore, mnemonic_case=case)
+        finally:
+            sys.setprofile(None)
     except lasio.exceptions.LASHeaderError as e:
         m = re.match(r"Line (\d+)", str(e))
         return {"err": ["HeaderError", int(m.group(1))]}
@@ -375,7 +373,9 @@ def read_real_header(text, ignore=False, case="upper"):
         return {"err": ["LASF"]}
     except Exception as e:
         return {"err": [type(e).__name__]}
-    return {"ok": canon_header(las, defaults, text)}
+    out = canon_header(las, defaults, text)
+    out["steer"] = seen.get("steer")
+    return {"ok": out}
 
 
 def num_real(raw):
@@ -390,7 +390,7 @@ def value_matches(raw, real):
     return canon_val(num_real(raw)) == real
 
 
-def header_diff(model, real, multi_vw=False):
+def header_diff(model, real):
     """None when the model answer equals the canonical real answer, else a short description"""
     if model == "unmodelled":
         return None
@@ -418,26 +418,16 @@ def header_diff(model, real, multi_vw=False):
                 return "item:" + k
     if m["data"] != r["data"]:
         return "data-windows"
-    if not multi_vw:
-        # the real steering variables are locals of read(): they are re-derived from the final Version / Well sections,
-        # which is exact when each was assigned from at most one section
-        keys = [k for k, _ in m["sections"]]
-        for j, (a, b) in enumerate(zip(m["steer"], r["steer"])):
-            if ("Well" if j == 2 else "Version") not in keys:
-                continue
-            if (a is None) != (b is None) or (a is not None and not value_matches(a, b)):
+    if r.get("steer") is not None:
+        # the real steering variables (locals of read(), observed at return) vs the model's raw texts; None = still the default
+        defaults = [["f", (2.0).hex()], ["s", "YES"], None, ["s", "SPACE"]]
+        for a, b, d in zip(m["steer"], r["steer"], defaults):
+            if a is None:
+                if b != d:
+                    return "steer"
+            elif b is None or not value_matches(a, b):
                 return "steer"
     return None
-
-
-def count_vw(text):
-    """number of sections steering can come from, per letter (steer comparison is exact only with at most one each)"""
-    v = w = 0
-    for a, b, t, k in real_sections_scan(text):
-        if k == "items":
-            v += t[1:2].upper() == "V"
-            w += t[1:2].upper() == "W"
-    return v, w
 
 
 def dump_full(las):
